@@ -148,7 +148,7 @@ func contains(s, sub string) bool {
 func init() {
 	Register(&Prop{
 		ID:    "C01",
-		Rule:  "same enumeration as C02 (skeleton, mode, ≤k focus units over full alphabets, all field visit orders); non-trivial = a deviating case on which the call returned no issues (the oracle walks the destination); distinct = distinct (skeleton, mode, schema configuration) among those. plus " + callsRule + " (C01 reports the sequences in which a call came back without issues although the same call made alone reports a violation). plus " + layoutRule + " (C01 reports runs with fewer issues than the fresh schema). plus built-in string tests (Email, URL, Contains, HasSuffix, Len, Max, Min; plain and negated) on mail addresses, URLs and repeated letters of 63..70000 bytes at top level, as field and as element in both modes: no issue ⇒ the destination value satisfies the test. plus every chain of 2 or 3 numeric bounds (GT, GTE, LT, LTE, EQ with limits 5 and 10, any order, repeats allowed) on Int and Float64 nodes at top level and as field, subjects 4..11 and 5.5, both modes: no issue ⇒ every declared bound holds, and the issue codes are exactly the failing bounds in declaration order; the same for chains of Min/Max/Len on String (limits 2, 3; lengths 1..4) and Slice (limits 1, 2; lengths 1..3) nodes and After/Before/EQ on Time nodes (two limits; five instants around them)",
+		Rule:  "same enumeration as C02 (skeleton, mode, ≤k focus units over full alphabets, all field visit orders); non-trivial = a deviating case on which the call returned no issues (the oracle walks the destination); distinct = distinct (skeleton, mode, schema configuration) among those. plus " + callsRule + " (C01 reports the sequences in which a call came back without issues although the same call made alone reports a violation). plus " + layoutRule + " (C01 reports runs with fewer issues than the fresh schema). plus built-in string tests (Email, URL, Contains, HasSuffix, Len, Max, Min; plain and negated) on mail addresses, URLs and repeated letters of 63..70000 bytes at top level, as field and as element in both modes: no issue ⇒ the destination value satisfies the test. plus every chain of 2 or 3 numeric bounds (GT, GTE, LT, LTE, EQ with limits 5 and 10, any order, repeats allowed, each bound declared without options / with a Params option / with a Message) on Int and Float64 nodes at top level and as field, subjects 4..11 and 5.5, both modes: no issue ⇒ every declared bound holds, and the issue codes are exactly the failing bounds in declaration order; the same for chains of Min/Max/Len on String (limits 2, 3; lengths 1..4) and Slice (limits 1, 2; lengths 1..3) nodes and After/Before/EQ on Time nodes (two limits; five instants around them)",
 		Floor: 50,
 		Bound: func(tier string) string {
 			k, e := coreK(tier)
@@ -318,16 +318,19 @@ func c01NumberChainScenario(x *mc.X) *mc.Outcome {
 		ai   func(s *z.NumberSchema[int]) *z.NumberSchema[int]
 		af   func(s *z.NumberSchema[float64]) *z.NumberSchema[float64]
 	}
+	// every bound of the chain is declared with the same kind of test option (none changes what the bound means)
+	optKind := x.Choose(3, "test option on every bound")
+	o := func() []z.TestOption { return c01BoundOpts(optKind) }
 	var bounds []bound
 	for _, n := range []int{5, 10} {
 		n := n
 		f := float64(n)
 		bounds = append(bounds,
-			bound{fmt.Sprintf("GT(%d)", n), "gt", func(v float64) bool { return v > f }, func(s *z.NumberSchema[int]) *z.NumberSchema[int] { return s.GT(n) }, func(s *z.NumberSchema[float64]) *z.NumberSchema[float64] { return s.GT(f) }},
-			bound{fmt.Sprintf("GTE(%d)", n), "gte", func(v float64) bool { return v >= f }, func(s *z.NumberSchema[int]) *z.NumberSchema[int] { return s.GTE(n) }, func(s *z.NumberSchema[float64]) *z.NumberSchema[float64] { return s.GTE(f) }},
-			bound{fmt.Sprintf("LT(%d)", n), "lt", func(v float64) bool { return v < f }, func(s *z.NumberSchema[int]) *z.NumberSchema[int] { return s.LT(n) }, func(s *z.NumberSchema[float64]) *z.NumberSchema[float64] { return s.LT(f) }},
-			bound{fmt.Sprintf("LTE(%d)", n), "lte", func(v float64) bool { return v <= f }, func(s *z.NumberSchema[int]) *z.NumberSchema[int] { return s.LTE(n) }, func(s *z.NumberSchema[float64]) *z.NumberSchema[float64] { return s.LTE(f) }},
-			bound{fmt.Sprintf("EQ(%d)", n), "eq", func(v float64) bool { return v == f }, func(s *z.NumberSchema[int]) *z.NumberSchema[int] { return s.EQ(n) }, func(s *z.NumberSchema[float64]) *z.NumberSchema[float64] { return s.EQ(f) }},
+			bound{fmt.Sprintf("GT(%d)", n), "gt", func(v float64) bool { return v > f }, func(s *z.NumberSchema[int]) *z.NumberSchema[int] { return s.GT(n, o()...) }, func(s *z.NumberSchema[float64]) *z.NumberSchema[float64] { return s.GT(f, o()...) }},
+			bound{fmt.Sprintf("GTE(%d)", n), "gte", func(v float64) bool { return v >= f }, func(s *z.NumberSchema[int]) *z.NumberSchema[int] { return s.GTE(n, o()...) }, func(s *z.NumberSchema[float64]) *z.NumberSchema[float64] { return s.GTE(f, o()...) }},
+			bound{fmt.Sprintf("LT(%d)", n), "lt", func(v float64) bool { return v < f }, func(s *z.NumberSchema[int]) *z.NumberSchema[int] { return s.LT(n, o()...) }, func(s *z.NumberSchema[float64]) *z.NumberSchema[float64] { return s.LT(f, o()...) }},
+			bound{fmt.Sprintf("LTE(%d)", n), "lte", func(v float64) bool { return v <= f }, func(s *z.NumberSchema[int]) *z.NumberSchema[int] { return s.LTE(n, o()...) }, func(s *z.NumberSchema[float64]) *z.NumberSchema[float64] { return s.LTE(f, o()...) }},
+			bound{fmt.Sprintf("EQ(%d)", n), "eq", func(v float64) bool { return v == f }, func(s *z.NumberSchema[int]) *z.NumberSchema[int] { return s.EQ(n, o()...) }, func(s *z.NumberSchema[float64]) *z.NumberSchema[float64] { return s.EQ(f, o()...) }},
 		)
 	}
 	length := 2 + x.Choose(2, "chain length")
@@ -417,7 +420,7 @@ func c01NumberChainScenario(x *mc.X) *mc.Outcome {
 	out := &mc.Outcome{Traces: 1, Nontrivial: len(issues) == 0, Sig: fmt.Sprintf("numchain|%v|%v|%d|%d|%v", names, float, place, mode, len(issues) == 0)}
 	out.Sample = map[string]any{"chain": names, "float64": float, "subject": subj, "placement": place, "mode": mode, "codes": codes}
 	note := func() {
-		x.Note("chain %v on %s, subject %v, placement %d (0 top, 1 field), mode %d (0 Parse, 1 Validate)", names, map[bool]string{false: "Int()", true: "Float64()"}[float], subj, place, mode)
+		x.Note("chain %v on %s, every bound with test option %d (0 none, 1 Params(extra entry), 2 Message), subject %v, placement %d (0 top, 1 field), mode %d (0 Parse, 1 Validate)", names, map[bool]string{false: "Int()", true: "Float64()"}[float], optKind, subj, place, mode)
 	}
 	switch {
 	case got != subj && len(issues) == 0:
@@ -475,21 +478,23 @@ func c01OtherChainScenario(x *mc.X) *mc.Outcome {
 	place := x.Choose(2, "placement")
 	mode := x.Choose(2, "mode")
 	at := func(n int) time.Time { return t0.Add(time.Duration(n) * time.Second) }
+	optKind := x.Choose(3, "test option on every bound")
+	o := func() []z.TestOption { return c01BoundOpts(optKind) }
 	ss, sl, st := z.String(), z.Slice(z.Int()), z.Time()
 	for _, b := range chain {
 		switch b.op {
 		case "Min":
-			ss, sl = ss.Min(b.n), sl.Min(b.n)
+			ss, sl = ss.Min(b.n, o()...), sl.Min(b.n, o()...)
 		case "Max":
-			ss, sl = ss.Max(b.n), sl.Max(b.n)
+			ss, sl = ss.Max(b.n, o()...), sl.Max(b.n, o()...)
 		case "Len":
-			ss, sl = ss.Len(b.n), sl.Len(b.n)
+			ss, sl = ss.Len(b.n, o()...), sl.Len(b.n, o()...)
 		case "After":
-			st = st.After(at(b.n))
+			st = st.After(at(b.n), o()...)
 		case "Before":
-			st = st.Before(at(b.n))
+			st = st.Before(at(b.n), o()...)
 		case "EQ":
-			st = st.EQ(at(b.n))
+			st = st.EQ(at(b.n), o()...)
 		}
 	}
 	holds := func(b bound, got int) bool {
@@ -593,6 +598,7 @@ func c01OtherChainScenario(x *mc.X) *mc.Outcome {
 	out := &mc.Outcome{Traces: 1, Nontrivial: len(issues) == 0, Sig: fmt.Sprintf("chain|%s|%v|%d|%d|%v", fam, names, place, mode, len(issues) == 0)}
 	out.Sample = map[string]any{"node": fam, "chain": names, "subject_size_or_offset": size, "placement": place, "mode": mode, "codes": codes}
 	note := func() {
+		x.Note("every bound with test option %d (0 none, 1 Params(extra entry), 2 Message)", optKind)
 		x.Note("chain %v on %s (Time limits and subjects are seconds after 2020-01-01T00:00:00Z), subject size/offset %d, placement %d (0 top, 1 field), mode %d (0 Parse, 1 Validate)", names, fam, size, place, mode)
 	}
 	switch {
@@ -607,4 +613,15 @@ func c01OtherChainScenario(x *mc.X) *mc.Outcome {
 		out.Viol = append(out.Viol, &mc.Violation{Key: "C01:bound-chain:codes:" + fam, What: "the reported issues are not the failing declared bounds, one each, in declaration order", Expected: fmt.Sprint(want), Observed: fmt.Sprint(codes)})
 	}
 	return out
+}
+
+// c01BoundOpts: test options that must not change what a bound means.
+func c01BoundOpts(kind int) []z.TestOption {
+	switch kind {
+	case 1:
+		return []z.TestOption{z.Params(map[string]any{"note": "shown in a custom message"})}
+	case 2:
+		return []z.TestOption{z.Message("out of bounds")}
+	}
+	return nil
 }
